@@ -17,6 +17,7 @@ CONSTANTS
   MaxCands = 2
   MaxCandsA = 2
   MaxAborts = 1
+  MaxFails = 0
   MaxJumps = 0
   PreNames = {"hubportal"}
   Export = TRUE
